@@ -44,8 +44,8 @@ QUERIES_RULE = ("queries: every string over a small alphabet (lengths 0..3 quick
                 "functions and all NULL/zero/over-limit combinations")
 
 
-EXTRA_HARNESSES = {"C01": ["tok", "fmt", "misc", "cons"], "C02": ["tok", "fmt", "misc", "cons"], "C03": ["fmt", "misc", "cons"], "C04": ["fmt", "misc", "cons"], "C05": ["fmt", "misc", "cons"],
-                   "C06": ["misc"], "C08": ["fmt", "misc"]}
+EXTRA_HARNESSES = {"C01": ["tok", "fmt", "misc", "cons", "wfmt"], "C02": ["tok", "fmt", "misc", "cons", "wfmt"], "C03": ["fmt", "misc", "cons", "wfmt"], "C04": ["fmt", "misc", "cons", "wfmt"],
+                   "C05": ["fmt", "misc", "cons", "wfmt"], "C06": ["misc"], "C08": ["fmt", "misc", "wfmt"]}
 
 
 def _engine_check(prop, cfgs, level_text, assumptions, modes=(0,), queries=False):
@@ -61,7 +61,7 @@ def _engine_check(prop, cfgs, level_text, assumptions, modes=(0,), queries=False
             jobs += mbconv_jobs(prop, tier, ["plain", "noslack"] if "noslack" in cfgs else ["plain"])
             hs.append("mbconv")
         for h in EXTRA_HARNESSES.get(prop, []):
-            jobs += harness_jobs(h, prop, tier, ["plain", "noslack"] if (h in ("fmt", "misc", "cons") and "noslack" in cfgs) else ["plain"], nw=1 if h in ("misc", "cons") else 4)
+            jobs += harness_jobs(h, prop, tier, ["plain", "noslack"] if (h in ("fmt", "misc", "cons", "wfmt") and "noslack" in cfgs) else ["plain"], nw=1 if h in ("misc", "cons", "wfmt") else 4)
             hs.append(h)
         run_workers(jobs, res)
         res.evaluations = res.counters.get("calls", 0)
